@@ -310,7 +310,7 @@ Proof.
 Qed.
 
 (* an Impl used as (part of) a body, in an arbitrary context whose own set contains its range *)
-Lemma impl_body : forall q, Impl q -> forall sc cur base, frameOK sc cur base ->
+Lemma impl_body : forall m q, Lemmas.Impl nt code m q -> forall sc cur base, frameOK sc cur base ->
   forall ceq pcq nvq sn cq nvq' sn', comp q ceq cur pcq nvq sn = Some (cq, nvq', sn') -> code_at pcq cq ->
   forall cx rhoq v vs n o g (P : list sv -> nat -> gx -> Prop),
     g_sc cx = sc -> g_pc cx = pcq + length cq -> ce_lbls (g_ce cx) = ce_lbls ceq -> g_off cx = o ->
@@ -322,9 +322,9 @@ Lemma impl_body : forall q, Impl q -> forall sc cur base, frameOK sc cur base ->
     (forall a b m x m' x', P a m x -> chg (fun i => base + nvq <= i < base + nvq' \/ o <= i) a b -> cle m x m' x' -> P b m' x') ->
     (forall a b m x m' x', P a m x -> keepK0 cx a b -> cle m x m' x' -> P b m' x') ->
     P vs n g ->
-    G cx (fst (den q rhoq v)) (Tend cx (snd (den q rhoq v)) P) (N sc pcq (SV v :: g_st cx) (g_base cx) vs n o g).
+    G cx (fst (den1 nt (call_of nt m) q rhoq v)) (Tend cx (snd (den1 nt (call_of nt m) q rhoq v)) P) (N sc pcq (SV v :: g_st cx) (g_base cx) vs n o g).
 Proof.
-  intros q IH sc cur base Hfr ceq pcq nvq sn cq nvq' sn' Ec Hat cx rhoq v vs n o g P Hsc Hpc Hlb Hoff Hown Hk1 Hk2 Hk0 HE Hn Hko Hoo Hl Hct HP1 HP2 HP. pose proof (frameOK_cur _ _ _ Hfr) as Hcur.
+  intros m q IH sc cur base Hfr ceq pcq nvq sn cq nvq' sn' Ec Hat cx rhoq v vs n o g P Hsc Hpc Hlb Hoff Hown Hk1 Hk2 Hk0 HE Hn Hko Hoo Hl Hct HP1 HP2 HP. pose proof (frameOK_cur _ _ _ Hfr) as Hcur.
   pose proof (IH sc cur base Hfr ceq pcq nvq sn cq nvq' sn' Ec Hat rhoq v (g_st cx) (g_base cx) vs n (g_n0 cx) o (g_koff cx) g
                 (g_keep cx) (g_keep0 cx) P HE Hn Hko Hoo Hl Hk1 Hk2 Hk0) as H.
   cbv zeta in H.
@@ -387,7 +387,7 @@ Proof.
   intros q IH sc cur base Hfr ceq pcq nvq sn cq nvq' sn' Ec Hat pc' st fk lo hi o ko K K0 ce n0 t ownb0 ceb fk' o' x rhoq rho lim P Jg Jgf v' vs' n'
          Hpc Hlb Hown HKq HK2 HK0 HEq Hko Hoo Hlo Hhi Hlim Hlimo S1' S2' Jg1 Jg2 Jgf1 Jgf2 JJ Hj Hg Ho' Ht cb. pose proof (frameOK_cur _ _ _ Hfr) as Hcur.
   pose proof Hj as (E' & Hn' & Hl' & Hp').
-  apply (impl_body q IH sc cur base Hfr ceq pcq nvq sn cq nvq' sn' Ec Hat cb rhoq v' vs' n' o' x); subst cb; simpl; auto; try lia.
+  apply (impl_body fu q IH sc cur base Hfr ceq pcq nvq sn cq nvq' sn' Ec Hat cb rhoq v' vs' n' o' x); subst cb; simpl; auto; try lia.
   - intros i [Hi|Hi]; [left; apply Hown; auto|right; auto].
   - intros i Hi. apply Hown; auto.
   - intros i Hi. exact (wk_K _ _ _ _ HK0 Hi).
@@ -912,7 +912,7 @@ Proof.
   set (Pb := fun a m (x : gx) => Jstd sc ce rho n0 (base + nv) o P a m x /\ nth_error a (base + nv) = Some (SLbl n)).
   assert (HJ1 : Jstd sc ce rho n0 (base + nv) o P vs1 n g) by (eapply Jstd_update; eauto; lia).
   assert (HB : G cx (fst (den qb rho v)) (Tend cx (snd (den qb rho v)) Pb) (N sc (S pc) (SV v :: st) (fx :: fk) vs1 (S n) o g)).
-  { apply (impl_body qb IHb sc cur base Hfr ceb (S pc) (S nv) sn cb nv' s1 Ec Hat cx rho v vs1 (S n) o g Pb); simpl; auto; try lia.
+  { apply (impl_body fu qb IHb sc cur base Hfr ceb (S pc) (S nv) sn cb nv' s1 Ec Hat cx rho v vs1 (S n) o g Pb); simpl; auto; try lia.
     - intros; apply HK1; lia.
     - intros i Hi. destruct (kept_add_lbl _ _ _ _ _ _ (Hcur nv) Hi) as [->|Hi']; [apply HK1; lia|auto].
     - destruct HJ1 as (E1 & _). apply envOK_add_lbl with (a := base + nv) (id := n); auto; try lia.
@@ -1819,7 +1819,7 @@ Proof.
                                g_own := fun i => i = lo \/ base + S n2 <= i < hi \/ o2 <= i;
                                g_keep := K; g_keep0 := KC; g_ce := ce3; g_n0 := n0; g_off := o2; g_koff := ko; g_ctr := ctr z2 |}
                             (fun i => i = lo \/ base + n3 <= i < hi) ce3 fk3 o3 (ctr z3)).
-          apply (impl_body e IHx sc cur base Hfr ce3 (S (S q3)) n3 s3 cx nv' sn' Hx Hatx cbx
+          apply (impl_body fu e IHx sc cur base Hfr ce3 (S (S q3)) n3 s3 cx nv' sn' Hx Hatx cbx
                    ((x, BV w) :: rho) u vs4 m3 o3 z3 PD); subst cbx; simpl.
           -- reflexivity.
           -- reflexivity.
@@ -2178,6 +2178,242 @@ Proof.
   - simpl. rewrite app_length, map_length, seq_length. simpl. lia.
 Qed.
 
+(* ---- value parameters: def f($x): ...  The prelude evaluates the closure of every $x parameter on the input of the
+   function and stores each output in turn in the slot of $x: a bind per value parameter ---- *)
+Fixpoint bindpv (evi : nat -> result) (k : venv -> result) (pvs : list (nat * vname)) (env : venv) : result :=
+  match pvs with
+  | [] => k env
+  | (i, x) :: r => bind (evi i) (fun w => bindpv evi k r ((x, BV w) :: env))
+  end.
+Lemma bindpv_ext : forall evi evi' k pvs env, (forall i x, In (i, x) pvs -> evi i = evi' i) ->
+  bindpv evi k pvs env = bindpv evi' k pvs env.
+Proof.
+  induction pvs as [|[i x] r IH]; intros env H; simpl; [reflexivity|].
+  rewrite (H i x (or_introl eq_refl)). apply bind_list_ext'. intros w. apply IH. intros i' x' Hin. apply (H i' x'). right. exact Hin.
+Qed.
+Lemma pv_params_ge : forall ps i0 i x, In (i, x) (pv_params ps i0) -> i0 <= i < i0 + length ps.
+Proof.
+  induction ps as [|[g|y] ps IH]; intros i0 i x H; simpl in *; [contradiction| |].
+  - apply IH in H. lia.
+  - destruct H as [E|H]; [inversion E; subst; lia|apply IH in H; lia].
+Qed.
+Lemma bindps_pvs : forall ev k ps args i0 env, length ps = length args ->
+  bindps ev k ps args env =
+  bindpv (fun i => match nth_error args (i - i0) with Some a => ev a | None => ([], None) end) k (pv_params ps i0) env.
+Proof.
+  induction ps as [|[g|x] ps IH]; intros args i0 env Hl; destruct args as [|a args]; simpl in Hl; try discriminate; simpl.
+  - reflexivity.
+  - rewrite (IH args (S i0) env) by lia. apply bindpv_ext. intros i y Hin. apply pv_params_ge in Hin.
+    replace (i - i0) with (S (i - S i0)) by lia. reflexivity.
+  - rewrite Nat.sub_diag. simpl. apply bind_list_ext'. intros w.
+    rewrite (IH args (S i0) _) by lia. apply bindpv_ext. intros i y Hin. apply pv_params_ge in Hin.
+    replace (i - i0) with (S (i - S i0)) by lia. reflexivity.
+Qed.
+
+Lemma kept_fields : forall sc ce ce' i, ce_env ce = ce_env ce' -> ce_lbls ce = ce_lbls ce' -> ce_ghost ce = ce_ghost ce' ->
+  kept sc ce i -> kept sc ce' i.
+Proof. intros sc ce ce' i H1 H2 H3 Hk. unfold kept in *. rewrite <- H1, <- H2, <- H3. exact Hk. Qed.
+Lemma envOK_fields : forall sc ce ce' rho vs n0 lim, ce_env ce = ce_env ce' -> ce_lbls ce = ce_lbls ce' -> ce_ghost ce = ce_ghost ce' ->
+  envOK sc ce rho vs n0 lim -> envOK sc ce' rho vs n0 lim.
+Proof. intros sc ce ce' rho vs n0 lim H1 H2 H3 HE. unfold Lemmas.envOK in *. rewrite <- H1, <- H2, <- H3. exact HE. Qed.
+
+Lemma pv_loop :
+  forall sc cur base, frameOK sc cur base ->
+  forall ce rho limc v n0 sc' idf o, frameOK sc' idf o -> pushed sc idf sc' -> limc <= o ->
+  let Gc := kept sc (fun_env ce) in
+  (forall i, Gc i -> i < limc) ->
+  forall args pcs nps, Forall2 (fun a q => funOK code (S q) [] a (ce_env ce)) args pcs -> Forall (fun a => Impl a) args -> length args = nps ->
+  forall m body ceF pcb pslots cb nvb s0 s1 st, Lemmas.Impl nt code m body ->
+    comp body ceF idf pcb pslots s0 = Some (cb, nvb, s1) -> code_at pcb cb -> at_ (pcb + length cb) Iret ->
+    ce_lbls ceF = [] -> ce_ghost ceF = Gc ->
+  let evi := fun i => match nth_error args i with Some a => den a rho v | None => ([], None) end in
+  let k := fun env => den1 nt (call_of nt m) body env v in
+  forall pvs j ceJ rhoJ pcx cx (PT : list sv -> nat -> gx -> Prop) vs n oo g,
+    ce_env ceF = pv_env idf nps pvs j ++ ce_env ceJ -> ce_lbls ceJ = [] -> ce_ghost ceJ = Gc ->
+    o + S nps + j + length pvs = o + pslots ->
+    (forall i x, In (i, x) pvs -> i < nps) ->
+    code_at pcx (pv_code idf nps pvs j ++ [Iload (idf, 0)]) -> pcx + length (pv_code idf nps pvs j) + 1 = pcb ->
+    envOK sc' ceJ rhoJ vs n0 (o + S nps + j) ->
+    nth_error vs (o + 0) = Some (SV v) ->
+    (forall i q, nth_error pcs i = Some q -> nth_error vs (o + S i) = Some (SPc (S q) sc)) ->
+    envOKl code Gc sc vs limc (ce_env ce) rho ->
+    g_sc cx = sc' -> g_pc cx = pcb + length cb -> g_st cx = st -> g_off cx = oo -> g_ce cx = ceJ -> g_n0 cx = n0 ->
+    o + nvb <= g_koff cx -> g_koff cx <= oo -> oo <= length vs -> n0 <= n -> g_ctr cx <= ctr g ->
+    (forall i, o + S nps + j <= i < o + nvb \/ oo <= i -> g_own cx i) -> (forall i, g_own cx i -> o + S nps + j <= i) ->
+    (forall i, o <= i < o + nvb -> g_keep cx i) -> (forall i, Gc i -> g_keep cx i) -> (forall i, kept sc' ceJ i -> g_keep cx i) ->
+    (forall i, g_keep0 cx i -> g_keep cx i) ->
+    (forall a b m0 x m' x', PT a m0 x -> chg (fun i => o + S nps + j <= i < o + nvb \/ oo <= i) a b -> cle m0 x m' x' -> PT b m' x') ->
+    (forall a b m0 x m' x', PT a m0 x -> keepK0 cx a b -> cle m0 x m' x' -> PT b m' x') ->
+    PT vs n g ->
+    G cx (fst (bindpv evi k pvs rhoJ)) (Tend cx (snd (bindpv evi k pvs rhoJ)) PT) (N sc' pcx st (g_base cx) vs n oo g).
+Proof.
+  intros sc cur base Hfr ce rho limc v n0 sc' idf o Hfr' Hps Hlimc Gc HGlt args pcs nps HFa IHargs Hnps
+         m body ceF pcb pslots cb nvb s0 s1 st IHb Hcomp Hatcb Aret HlF HgF evi k.
+  pose proof (frameOK_cur _ _ _ Hfr') as Hcur'.
+  induction pvs as [|[i x] r IH]; intros j ceJ rhoJ pcx cx PT vs n oo g HeF HlJ HgJ Hsl Hidx Hat Hpcx HE Hv0 Hclos HEc
+         Hsc Hpc Hst Hoff Hce Hn0 Hko Hkoo Hlen Hn Hct Hown Hown2 HKf HKg HKk HK0 PT1 PT2 HPT.
+  - (* all value parameters are bound: load the input, run the body *)
+    simpl in Hat, Hpcx, HeF, Hsl. uncons Hat A0. cbn [bindpv].
+    eapply G_pre; [eapply steps_step; [eapply st_load; [exact A0|apply Hcur'|exact Hv0]|apply steps_refl]|apply chg_refl|cl|].
+    replace (S pcx) with pcb by lia. rewrite <- Hst.
+    apply (impl_body m body IHb sc' idf o Hfr' ceF pcb pslots s0 cb nvb s1 Hcomp Hatcb cx rhoJ v vs n oo g PT); auto; try lia.
+    + rewrite Hce, HlJ, HlF. reflexivity.
+    + intros i Hi. apply Hown. lia.
+    + intros i Hi. apply HKf. destruct (comp_mono _ _ _ _ _ _ _ _ _ Hcomp). lia.
+    + intros i Hi. apply HKk. eapply kept_fields; [| | |exact Hi]; [rewrite HeF; reflexivity|congruence|congruence].
+    + rewrite Hn0. replace (o + pslots) with (o + S nps + j) by lia.
+      eapply envOK_fields; [| | |exact HE]; [rewrite HeF; reflexivity|congruence|congruence].
+    + intros a b m0 y m' y' Hp C Hm. eapply PT1; [exact Hp| |exact Hm]. eapply chg_mono; [|exact C]. simpl; intros; lia.
+  - (* one value parameter: evaluate its closure on the input; for every output store it and go on *)
+    simpl pv_code in Hat, Hpcx. simpl pv_env in HeF. simpl length in Hsl, Hpcx.
+    simpl app in Hat.
+    uncons Hat A0. uncons Hat A1. uncons Hat A2. uncons Hat A3. uncons Hat A4. uncons Hat A5.
+    assert (Hi : i < nps) by (apply (Hidx i x); left; reflexivity).
+    destruct (comp_mono _ _ _ _ _ _ _ _ _ Hcomp) as [Mb _].
+    assert (Hlp : length pcs = nps) by (rewrite <- Hnps; clear - HFa; induction HFa; simpl; auto).
+    destruct (nth_error args i) as [a|] eqn:Ea; [|apply nth_error_None in Ea; lia].
+    destruct (nth_error pcs i) as [q|] eqn:Eq; [|apply nth_error_None in Eq; lia].
+    assert (Hfa : funOK code (S q) [] a (ce_env ce) /\ Impl a).
+    { clear - HFa IHargs Ea Eq. revert i pcs HFa Ea Eq. induction args as [|a0 args IHa]; intros [|i] pcs HFa Ea Eq; simpl in *; try discriminate;
+        inversion HFa; subst; inversion IHargs; subst; simpl in Eq.
+      - inversion Ea; inversion Eq; subst. auto.
+      - eapply IHa; eauto. }
+    destruct Hfa as [(ida & nva & cba & s0a & s1a & Hsca & Hcba & Hcodea & Hclta & _) IHa].
+    set (cea := {| ce_env := ce_env ce; ce_lbls := []; ce_ghost := Gc |}).
+    assert (Hcba' : comp a cea ida (S (S q)) 0 s0a = Some (cba, nva, s1a)).
+    { specialize (Hcba Gc). simpl in Hcba. replace (S (q + 1 + 0)) with (S (S q)) in Hcba by lia. exact Hcba. }
+    assert (Hata : code_at (S (S q)) (cba ++ [Iret])).
+    { intros i0 y Hy. replace (S (S q) + i0) with (S q + 1 + i0) by lia. apply Hcodea. exact Hy. }
+    assert (Hclta' : ce_lt cea ida = true) by exact Hclta.
+    set (ownb0 := fun i0 => o + S nps + j <= i0 < o + nvb).
+    set (g2 := {| ctr := ctr g; creg := (Some (S (S (S pcx))), sc) |}).
+    set (c1 := {| g_sc := sc'; g_pc := S (S (S (S pcx))); g_st := st; g_base := g_base cx; g_own := fun i0 => oo <= i0;
+                  g_keep := fun i0 => g_keep cx i0 /\ ~ ownb0 i0 /\ i0 < oo; g_keep0 := fun _ => False; g_ce := ceJ; g_n0 := n0;
+                  g_off := oo; g_koff := oo; g_ctr := g_ctr cx |}).
+    assert (Hkc : forall i0, kept sc cea i0 -> Gc i0).
+    { intros i0 [(x0 & y0 & Hx & Hi0)|[(l0 & y0 & Hx & Hi0)|Hg]]; [left; eauto|simpl in Hx; discriminate|exact Hg]. }
+    eapply G_pre with (s1 := N sc' (S q) (SV v :: st) (g_base cx) vs n oo g2).
+    { eapply steps_step; [eapply st_load; [exact A0|apply Hcur'|exact Hv0]|]. one st_expbegin.
+      eapply steps_step; [eapply st_load; [exact A2|apply Hcur'|apply (Hclos i q Eq)]|]. one st_callpc. apply steps_refl. }
+    { apply chg_refl. }
+    { unfold g2; cl. }
+    assert (HA : G c1 (fst (evi i)) (Tend c1 (snd (evi i)) (fun _ _ _ => True)) (N sc' (S q) (SV v :: st) (g_base cx) vs n oo g2)).
+    { unfold evi. rewrite Ea.
+      apply (G_call fu a IHa sc' idf o Hfr' sc cea (S q) ida cba nva s0a s1a Hclta' Hsca Hcba' Hata c1 rho v (fun _ _ _ => True)
+               vs n oo g2 (S (S (S pcx)))); simpl; auto; try lia.
+      - intros vs' fin e HEn. destruct fin as [[e0|l0|]|]; simpl in *; auto. destruct HEn as (x0 & k0 & id & Hk & _). discriminate.
+      - intros i0 Hi0. apply Hkc in Hi0. split; [apply HKg; exact Hi0|]. pose proof (HGlt _ Hi0). unfold ownb0. split; lia.
+      - split; [|split].
+        + simpl. eapply envOKl_lim; [exact HEc|lia].
+        + simpl. intros l0 y0 Hy. discriminate.
+        + simpl. intros i0 Hi0. apply HGlt in Hi0. lia. }
+    set (ceJ' := add_var ceJ x (idf, S nps + j)).
+    set (f := fun w => bindpv evi k r ((x, BV w) :: rhoJ)).
+    set (fb := fun (_ : unit) w => (fst (f w), snd (f w), tt)).
+    set (Jg := fun (_ : unit) (a0 : list sv) => nth_error a0 (o + 0) = Some (SV v) /\
+                 (forall i0 q0, nth_error pcs i0 = Some q0 -> nth_error a0 (o + S i0) = Some (SPc (S q0) sc)) /\
+                 envOKl code Gc sc a0 limc (ce_env ce) rho).
+    assert (HJgc : forall (O : nat -> Prop) a0 b, (forall i0, O i0 -> o + S nps <= i0) -> Jg tt a0 -> chg O a0 b -> Jg tt b).
+    { intros O a0 b HO (H1 & H2 & H3) [_ C]. split; [|split].
+      - rewrite <- H1. symmetry. apply C. intro Hc. apply HO in Hc. lia.
+      - intros i0 q0 Hq. rewrite <- (H2 i0 q0 Hq). symmetry. apply C. intro Hc. apply HO in Hc.
+        assert (i0 < length pcs) by (apply nth_error_Some; congruence). lia.
+      - eapply envOKl_same; [exact H3| |].
+        + intros x0 y0 k0 Hin Hk. apply C. intro Hc. apply HO in Hc. pose proof (envOKl_kept_lt _ _ _ _ _ _ x0 y0 k0 H3 Hin Hk). lia.
+        + intros k0 Hk. apply C. intro Hc. apply HO in Hc. apply HGlt in Hk. lia. }
+    assert (HJgk : forall (Kx : nat -> Prop) a0 b, (forall i0, o <= i0 < o + nvb -> Kx i0) -> (forall i0, Gc i0 -> Kx i0) -> Jg tt a0 -> keepX Kx a0 b -> Jg tt b).
+    { intros Kx a0 b HK1' HK2' (H1 & H2 & H3) [_ C]. split; [|split].
+      - rewrite <- H1. symmetry. apply C. apply HK1'. lia.
+      - intros i0 q0 Hq. rewrite <- (H2 i0 q0 Hq). symmetry. apply C. apply HK1'.
+        assert (i0 < length pcs) by (apply nth_error_Some; congruence). lia.
+      - eapply envOKl_same; [exact H3| |].
+        + intros x0 y0 k0 Hin Hk. apply C. apply HK2'. left. exists x0, y0. auto.
+        + intros k0 Hk. apply C. apply HK2'. exact Hk. }
+    pose proof (fold_gen c1 cx rhoJ (o + S nps + j) oo PT unit Jg (fun _ => PT) fb ownb0 ceJ') as HF. cbv zeta in HF.
+    cbn [bindpv]. fold f. unfold bind.
+    pose proof (foldgen_bind f (fst (evi i))) as Ef. fold fb in Ef.
+    destruct (bind_list (fst (evi i)) f) as [os xe] eqn:Eb. cbn [fst snd] in Ef.
+    assert (HG' : G cx os (Tend cx (match xe with Some e => Some e | None => snd (evi i) end) PT) (N sc' (S q) (SV v :: st) (g_base cx) vs n oo g2)).
+    { refine (HF (eq_sym Hsc) eq_refl (eq_sym Hce) (eq_sym Hn0) (eq_sym Hoff) eq_refl (eq_sym Hoff) ltac:(lia) _ _ _ _ _ _ _ _ _ _ _ _
+                (fst (evi i)) tt _ (snd (evi i)) os xe tt HA _ Hct Ef).
+      - simpl. intros i0 Hi0. apply Hown. right. exact Hi0.
+      - intros i0 Hi0. unfold ownb0 in Hi0. split; [apply Hown; left; exact Hi0|lia].
+      - intros i0 Hi0. apply Hown. right. lia.
+      - simpl. intros i0 (H1 & H2 & H3). split; [auto|split; [auto|lia]].
+      - simpl. intros i0 [].
+      - intros i0 Hi0 Ho. rewrite Hsc, Hce in Hi0. pose proof (kept_lt _ _ _ _ _ _ _ HE Hi0). apply Hown2 in Ho. lia.
+      - rewrite Hce. reflexivity.
+      - intros a0 b m0 y m' y' Hp C Hm. eapply PT1; [exact Hp| |exact Hm]. eapply chg_mono; [|exact C]. simpl. intros; lia.
+      - intros [] a0 b Hg C. eapply HJgc; [|exact Hg|exact C]. simpl. intros; lia.
+      - intros [] a0 b m0 y m' y' Hp C Hm. eapply PT1; [exact Hp| |exact Hm]. eapply chg_mono; [|exact C]. simpl. intros; lia.
+      - intros [] a0 m0 y [(_ & _ & _ & Hp) _]. exact Hp.
+      - (* the body: store the output in the slot of $x, expend, the remaining parameters *)
+        intros w [] fk' vs2 n2 o2 x2 os2 xx2 [] [Hj (Hv2 & Hcl2 & HEc2)] Ho2 Ht2 Hfk Efb.
+        unfold fb in Efb. inversion Efb; subst os2 xx2. clear Efb.
+        rewrite Hsc, Hce, Hn0 in Hj. destruct Hj as (E2 & Hn2 & Hl2 & Hp2). rewrite Hoff in Ho2.
+        set (slot := o + S (nps + j)).
+        destruct (update_some vs2 slot (SV w)) as [vs3 U3]; [unfold slot; lia|]. destruct (update_spec _ _ _ _ U3) as (UL3 & UN3 & UO3).
+        set (J := fun a0 m0 (y : gx) => Jstd sc' ceJ rhoJ n0 (o + S nps + j) oo PT a0 m0 y /\ Jg tt a0).
+        assert (EJ : (fun a0 m0 y => Jstd (g_sc cx) (g_ce cx) rhoJ (g_n0 cx) (o + S nps + j) oo PT a0 m0 y /\ Jg tt a0) = J)
+          by (unfold J; rewrite Hsc, Hce, Hn0; reflexivity).
+        rewrite EJ. rewrite Hsc. cbn [g_pc g_st c1].
+        set (PT' := wk fk' J PT).
+        assert (HJ2 : J vs2 n2 x2) by (split; [split; auto|split; auto]).
+        assert (Jchg : forall (O : nat -> Prop), (forall i0, O i0 -> (o + S nps + j <= i0 < o + nvb \/ oo <= i0)) ->
+                  forall a0 b m0 y m' y', J a0 m0 y -> chg O a0 b -> cle m0 y m' y' -> J b m' y').
+        { intros O HO a0 b m0 y m' y' [(Ea0 & Hna & Hla & Hpa) Hga] C Hm. split.
+          - split; [eapply envOK_chg; [exact Ea0|exact C|intros i0 Hi0; apply HO in Hi0; lia]|]. split; [destruct Hm; lia|].
+            split; [destruct C; lia|]. eapply PT1; [exact Hpa| |exact Hm]. eapply chg_mono; [|exact C]. exact HO.
+          - eapply HJgc; [|exact Hga|exact C]. intros i0 Hi0. apply HO in Hi0. lia. }
+        assert (JK : forall a0 b m0 y m' y', J a0 m0 y -> keepX (g_keep cx) a0 b -> cle m0 y m' y' -> J b m' y').
+        { intros a0 b m0 y m' y' [(Ea0 & Hna & Hla & Hpa) Hga] C Hm. split.
+          - split; [eapply envOK_keep; [exact Ea0|exact C|exact HKk]|]. split; [destruct Hm; lia|]. split; [destruct C; lia|].
+            eapply PT2; [exact Hpa| |exact Hm]. eapply keepX_mono; [|exact C]. exact HK0.
+          - eapply HJgk; [| |exact Hga|exact C]; auto. }
+        eapply G_pre; [eapply steps_step; [eapply st_store; [exact A4|apply Hcur'|exact U3]|]; one st_expend; apply steps_refl
+                      |eapply chg_update; [exact U3|simpl; left; unfold ownb0, slot; lia]|cl|].
+        set (cx2 := {| g_sc := sc'; g_pc := g_pc cx; g_st := g_st cx; g_base := fk' ++ g_base cx;
+                       g_own := fun i0 => o + S nps + S j <= i0 < o + nvb \/ o2 <= i0; g_keep := g_keep cx;
+                       g_keep0 := match fk' with [] => g_keep0 cx | _ :: _ => g_keep cx end;
+                       g_ce := ceJ'; g_n0 := g_n0 cx; g_off := o2; g_koff := g_koff cx; g_ctr := ctr x2 |}).
+        assert (HJ3 : J vs3 n2 x2).
+        { eapply (Jchg (fun i0 => i0 = slot)); [|exact HJ2|eapply chg_update; [exact U3|reflexivity]|cl]. intros i0 ->. unfold slot. lia. }
+        refine (G_sub nt code cx2 (cbody cx ownb0 ceJ' fk' o2 (ctr x2)) _ _ (eq_sym Hsc) eq_refl eq_refl eq_refl _
+                  (fun _ _ _ H => H) (fun _ _ H => H) (le_n _) (le_n _) (le_n _) _ _ _
+                  (IH (S j) ceJ' ((x, BV w) :: rhoJ) (S (S (S (S (S (S pcx)))))) cx2 PT' vs3 n2 o2 x2 _ HlJ HgJ _ _ Hat _ _ _ _ _
+                      eq_refl Hpc Hst eq_refl eq_refl Hn0 Hko _ _ Hn2 (le_n _) (fun _ H => H) _ HKf HKg _ _ _ _ _)).
+        + simpl. unfold ownb0. intros i0 [Hi0|Hi0]; [left; lia|right; lia].
+        + intros s3. apply Tend_sub; auto. simpl. unfold ownb0. intros i0 [Hi0|Hi0]; [left; lia|right; lia].
+        + rewrite HeF. unfold ceJ'. simpl. rewrite <- app_assoc. reflexivity.
+        + lia.
+        + intros i0 x0 Hin. apply (Hidx i0 x0). right. exact Hin.
+        + lia.
+        + unfold ceJ'. apply envOK_add_var with (a := slot).
+          * eapply envOK_lim; [destruct HJ3 as [(E3 & _) _]; exact E3|lia].
+          * apply Hcur'.
+          * unfold slot. lia.
+          * exact UN3.
+        + rewrite UO3 by (unfold slot; lia). exact Hv2.
+        + intros i0 q0 Hq. rewrite UO3; [apply Hcl2; exact Hq|]. assert (i0 < length pcs) by (apply nth_error_Some; congruence). unfold slot. lia.
+        + destruct HJ3 as [_ (_ & _ & H3)]. exact H3.
+        + simpl. lia.
+        + simpl. lia.
+        + simpl. intros i0 Hi0. lia.
+        + intros i0 Hi0. unfold ceJ' in Hi0. destruct (kept_add_var _ _ _ _ _ _ (Hcur' (S nps + j)) Hi0) as [->|Hk]; [apply HKf; lia|apply HKk; exact Hk].
+        + simpl. intros i0 Hi0. exact (wk_K _ _ _ _ HK0 Hi0).
+        + unfold PT'. apply wk_chg.
+          * apply Jchg. intros i0 Hi0. lia.
+          * intros a0 b m0 y m' y' Hp C Hm. eapply PT1; [exact Hp| |exact Hm]. eapply chg_mono; [|exact C]. simpl. intros; lia.
+        + unfold PT'. intros a0 b m0 y m' y' Hw C Hm. destruct fk' as [|f0 fk0]; simpl in *.
+          * eapply PT2; [exact Hw|exact C|exact Hm].
+          * eapply JK; [exact Hw|exact C|exact Hm].
+        + unfold PT'. apply wk_intro; [|exact HJ3]. intros a0 m0 y [(_ & _ & _ & Hp) _]. exact Hp.
+      - simpl. split; [|split; [exact Hv0|split; [exact Hclos|exact HEc]]].
+        rewrite Hsc, Hce, Hn0. split; [exact HE|]. split; [exact Hn|]. split; [exact Hlen|].
+        eapply PT1; [exact HPT|apply chg_refl|unfold g2; cl]. }
+    destruct xe as [e|]; exact HG'.
+Qed.
+
 (* a call: of a user-defined function (opcall pc, with the closures of the arguments pushed before), or of a filter
    parameter (load the closure; callpc).  The callee runs with one unit of fuel less *)
 Lemma impl_callf : forall f args, Impl (QCallF f args).
@@ -2326,8 +2562,8 @@ Proof.
       { intros s3. apply Tend_sub; auto. simpl. intros; lia. }
       { intros i Hi. unfold K'. right. lia. }
       { intros i Hi. unfold K'.
-        destruct Hi as [(x & y & Hx & Hi)|[(l0 & y & Hx & Hi)|Hg]]; simpl in *; [|discriminate|left; apply HK2, Hkc; exact Hg].
-        unfold param_env in Hx. rewrite (no_pv_params _ 0 Hpv) in Hx. cbn [pv_env app] in Hx.
+        destruct Hi as [(x & y & Hx & Hi)|[(l0 & y & Hx & Hi)|Hg]]; [|simpl in Hx; discriminate|left; apply HK2, Hkc; exact Hg].
+        unfold ceF in Hx. cbn [ce_env] in Hx. unfold param_env in Hx. rewrite (no_pv_params _ 0 Hpv) in Hx. cbn [pv_env app] in Hx.
         assert (Hy : (exists j, y = (idf, S j) /\ j < S (length ps')) \/ ((In (x, CV y) cel' \/ In (x, CP y) cel') /\ fst y < idf)).
         { destruct Hx as [Hx|Hx]; apply in_app_or in Hx; destruct Hx as [Hx|Hx].
           - exfalso. exact (proj1 (pf_env_In idf (p0 :: ps') 0 x y) Hx).
@@ -2342,7 +2578,7 @@ Proof.
       { split.
         - intros a b m0 x m' x' Hp C Hm0. eapply S1; [exact Hp| |exact Hm0]. eapply chg_mono; [|exact C]. simpl; intros; lia.
         - intros a b m0 x m' x' Hp C Hm0. eapply S2; [exact Hp|exact C|exact Hm0]. }
-      { eapply S1; [exact HP| |unfold g1, g'; cl]. simpl. split; [lia|]. intros i Hi.
+      { eapply S1; [exact HP| |unfold g1, g'; cl]. simpl. split; [pose proof (grow_len_le vs1 (o + nvb)); fold vs' in H; lia|]. intros i Hi.
         assert (Hi1 : i <> base + nv /\ i < o) by lia.
         rewrite Hagree by lia. symmetry. apply UO. lia. }
   - (* a filter parameter: load the closure; callpc *)
@@ -2412,7 +2648,7 @@ Proof.
   set (pcall := S (S (S pr))) in *.
   eapply G_pre; [one st_jump; eapply steps_step; [eapply st_load; [exact A3|apply Hcur|exact Hv]|]; one st_pushpc; one st_callpc; apply steps_refl
                 |apply chg_refl|cl|].
-  apply (G_call fu q IH sc cur base Hfr ce (S p) sn cb nvc (S sn) s1 Hce A1 Ec Hatb cx rho v P vs n o
+  apply (G_call fu q IH sc cur base Hfr sc ce (S p) sn cb nvc (S sn) s1 Hce A1 Ec Hatb cx rho v P vs n o
            {| ctr := ctr g; creg := (Some pcall, sc) |} pcall); auto.
   - rewrite Hpc. unfold pcall. lia.
   - intros vs' fin e HEn. eapply encR_lbls; [symmetry; exact Hlb|exact HEn].
@@ -2449,7 +2685,7 @@ Proof.
   - destruct (Nat.eqb_spec nvc 0) as [->|Hnz].
     + (* one instruction that owns no variable *)
       unfold arg_code in Hat, Hpc. simpl Nat.eqb in Hat, Hpc. cbv iota in Hat, Hpc.
-      destruct (comp_single nt (call_of nt fu) _ _ _ _ _ _ _ _ Ec) as [[Hs Hd]|(f & pf & -> & Hlf & Hd)]; rewrite Hd.
+      destruct (comp_single nt (call_of nt fu) _ _ _ _ _ _ _ _ Ec) as [[Hs Hd]|(f & pf & nf & -> & Hlf & Hd)]; rewrite Hd.
       * destruct x; try discriminate Hs; simpl in Hat, Hpc.
         -- (* const *) uncons Hat A0. cbn [den_instr fst snd].
            eapply G_single with (o3 := o); [rewrite Hsc, Hpc; replace (p + 1) with (S p) by lia; one st_push; apply steps_refl
@@ -2476,7 +2712,7 @@ Proof.
         simpl in Hat, Hpc. uncons Hat A0.
         eapply G_pre; [eapply steps_step; [eapply st_load; [exact A0|apply Hcur|exact Hv]|apply steps_refl]|apply chg_refl|cl|].
         assert (Ecf : comp (QCallF f []) ce cur (S p) nvl sn = Some ([Icallf pf], nvl, sn)) by (simpl; rewrite Hlf; reflexivity).
-        apply (impl_body (QCallF f []) (impl_callf f []) sc cur base Hfr ce (S p) nvl sn [Icallf pf] nvl sn Ecf Hat cx rho v vs n o g P); auto; try lia.
+        apply (impl_body fu (QCallF f []) (impl_callf f []) sc cur base Hfr ce (S p) nvl sn [Icallf pf] nvl sn Ecf Hat cx rho v vs n o g P); auto; try lia.
         -- rewrite Hpc. simpl. lia.
         -- intros i [Hi|Hi]; [lia|auto].
         -- intros a b m x m' x' Hp C Hm. eapply HP1; [exact Hp| |exact Hm]. eapply chg_mono; [|exact C]. simpl; intros; lia.
@@ -2708,7 +2944,7 @@ Proof.
   assert (HG : Gen.G2 nt code c0 (fst (den nt fu q [] v)) (Tend nt code c0 (snd (den nt fu q [] v)) (fun _ _ _ => True))
                  (Tend nt code c0 (snd (den nt fu q [] v)) (fun _ _ _ => True)) (N sc0 1 [SV v] [] vs0 0 (0 + nv) g1)).
   { apply HI; auto.
-    - split; [exact I|]. intros a k Hk; simpl in Hk; discriminate.
+    - split; [constructor|split; [intros a k Hk; simpl in Hk; discriminate|intros i []]].
     - unfold vs0. apply grow_len.
     - split; auto. }
   destruct (run_G code rpc c0 (fun _ _ _ => True) (snd (den nt fu q [] v)) mainscope 0 0 [] eq_refl Hret eq_refl
